@@ -136,6 +136,10 @@ void sim_note(const char* key, int64_t v); // shape/plan descriptors mixed into 
 
 // violation: records class key + message, writes replay file, prints result line, _exit
 void sim_fail(const char* cls, const char* fmt, ...) __attribute__((noreturn, format(printf, 2, 3)));
+// soft violation: remembered (first one wins), the run continues; reported by sim_report_soft()
+// after sim_end() if nothing fatal happened first
+void sim_soft_fail(const char* cls, const char* fmt, ...) __attribute__((format(printf, 2, 3)));
+void sim_report_soft(void);
 // harness asks whether the step budget hang handler should call back
 typedef void (*sim_hang_cb)(char* buf, size_t n);
 void sim_set_hang_describer(sim_hang_cb cb);
